@@ -20,6 +20,7 @@ from vlib import C09_exact as X
 
 CORR = os.path.join(common.VERIF, "corr", "C09_loads.py")
 TOL = 1e-10
+TOL_SEQ = 1e-11      # sequences / scaled twins: relative to the magnitudes of the case itself (no absolute floor)
 
 REPLAY = r'''
 import sys, json
@@ -68,7 +69,7 @@ if "error" in res:
 bad = False
 for cp, e in zip(res["checkpoints"], exp):
     coords = np.array([[float.fromhex(v) for v in row] for row in res["snapshots"][cp["snapshot"]]])
-    Fv = np.array(cp["F"]); unk = cp["all_unknowns"]; c = np.array(e["center"]); tol = %(tol)r * e["scale"]
+    Fv = np.array(cp["F"]); unk = cp["all_unknowns"]; c = np.array(e["center"]); tol = %(tol)r * e["scale"]; tolM = %(tol)r * e.get("scaleM", e["scale"])
     for u, R in e["R"].items():
         col = Fv[:, unk.index(u)]
         r = col.sum()
@@ -77,7 +78,7 @@ for cp, e in zip(res["checkpoints"], exp):
         if e["M"] is not None:
             m = ((coords - c) * col[:, None]).sum(axis=0)
             print("     first moments about", e["center"], ":", m.tolist(), "expected", e["M"][u])
-            bad = bad or any(abs(a - b) > tol for a, b in zip(m, e["M"][u]))
+            bad = bad or any(abs(a - b) > tolM for a, b in zip(m, e["M"][u]))
     if "fresh_max_diff" in cp:
         print("     max |F - F(fresh simulation on the moved mesh)| =", cp["fresh_max_diff"])
         bad = bad or cp["fresh_max_diff"] > %(tol)r * max(cp["fresh_scale"], e["scale"])
@@ -246,7 +247,12 @@ def gen_sequences(ctx, first_id):
     m2 = [{"kind": "2d", "elemType": et, "L": 2, "H": 1, "ms": 0.5, "organised": True} for et in ("TRI3", "QUAD4", "TRI6", "QUAD8")]
     m3 = [{"kind": "3d", "elemType": et, "L": 2, "H": 1, "T": 1, "ms": 1.0, "layers": 2, "organised": True} for et in ("PRISM6", "HEXA8", "TETRA4")]
     order = {"TRI3": 1, "TRI6": 2, "QUAD4": 1, "QUAD8": 2, "TETRA4": 1, "HEXA8": 1, "PRISM6": 1}
-    templates = ["reinit-move-callable", "move-no-reinit", "recoord-other-groups", "repeat-same-load", "replace-mesh", "double-move"]
+    templates = ["reinit-move-callable", "move-no-reinit", "recoord-other-groups", "repeat-same-load", "replace-mesh", "double-move",
+                 # order of otherwise independent public calls (point location / measures / normals / assembly before loads),
+                 # on plain, moved and MIRRORED meshes
+                 "query-then-load", "move-query-load", "mirror-query-load",
+                 # scaled twins: the same plate/solid at length units 2^-10, 2^-20, 2^-30 (~1e-3, 1e-6, 1e-9) and 2^10
+                 "scaled-twin:-10", "scaled-twin:-20", "scaled-twin:-30", "scaled-twin:10"]
     out = []
     combos = [(m, tpl) for tpl in templates for m in (m2 + m3)]
     rng.shuffle(combos)
@@ -256,28 +262,35 @@ def gen_sequences(ctx, first_id):
         for m, tpl in combos:
             if seen_t.get(tpl, 0) < 2 or m["elemType"] not in seen_m:
                 chosen.append((m, tpl)); seen_t[tpl] = seen_t.get(tpl, 0) + 1; seen_m.add(m["elemType"])
-        combos = chosen[:16]
+        combos = chosen[:28]
     for mesh, tpl in combos:
         dim = 2 if mesh["kind"] == "2d" else 3
         simu = "Thermal" if (dim == 2 and rng.random() < 0.25) else "Elastic"
         unknowns_all = ["t"] if simu == "Thermal" else ["x", "y", "z"][:dim]
         ext = [mesh["L"], mesh["H"], mesh.get("T", 0)]
-        st = {"s": F(1), "sh": [F(0)] * 3, "ext": ext}
+        st = {"sv": [F(1)] * 3, "sh": [F(0)] * 3, "ext": ext, "unit": F(1)}
 
         def tr(a, v):
-            return float(st["s"] * F(v) + st["sh"][a])
+            return float(st["sv"][a] * F(v) + st["sh"][a])
 
         def face(a, hi=True):
             return {"type": "face", "axis": a, "value": tr(a, st["ext"][a] if hi else 0)}
 
         def everything():
-            return {"type": "box", "lo": [tr(a, 0) for a in range(3)], "hi": [tr(a, st["ext"][a]) for a in range(3)]}
+            ends = [(tr(a, 0), tr(a, st["ext"][a])) for a in range(3)]
+            return {"type": "box", "lo": [min(e) for e in ends], "hi": [max(e) for e in ends]}
 
         def load(kind, sel, vkind, deg_mesh=mesh):
             k = rng.randint(1, len(unknowns_all))
             un = rng.sample(unknowns_all, k)
             deg = order[deg_mesh["elemType"]]
-            vals = [{"kind": "const", "v": rng.randint(-5, 5) or 2} if vkind == "const" else {"kind": vkind, "coeffs": rand_poly(rng, deg, dim)} for _ in un]
+            vals = [{"kind": "const", "v": rng.randint(-5, 5) or 2} if vkind == "const" else {"kind": vkind, "coeffs": rand_poly(rng, deg, dim, exact_deg=st["unit"] != 1)} for _ in un]
+            if st["unit"] != 1:
+                # density written in the current length unit: f(x) = g(x / unit), every monomial has the same weight
+                # whatever the unit (coefficients c / unit^k are exact: the unit is a power of two)
+                for v in vals:
+                    if v["kind"] != "const":
+                        v["coeffs"] = {k: float(F(cv) / st["unit"] ** sum(int(t) for t in k.split(","))) for k, cv in v["coeffs"].items()}
             if rng.random() < 0.4:
                 sel = dict(sel, dup={"seed": rng.randrange(1 << 30), "n": rng.choice([0, 2])})
             return {"op": "load", "load": kind, "selection": sel, "unknowns": un, "values": vals}
@@ -292,9 +305,25 @@ def gen_sequences(ctx, first_id):
         def recoord():
             sc = rng.choice([F(2), F(1, 2), F(3)])
             d = [F(rng.randint(-8, 8), 2) if a < dim else F(0) for a in range(3)]
-            st["s"] = st["s"] * sc
+            st["sv"] = [sc * x for x in st["sv"]]
             st["sh"] = [sc * a + b for a, b in zip(st["sh"], d)]
             return {"op": "set_coord", "scale": float(sc), "shift": [float(x) for x in d]}
+
+        def rescale(k):
+            u = F(2) ** k
+            st["sv"] = [u * x for x in st["sv"]]
+            st["sh"] = [u * a for a in st["sh"]]
+            st["unit"] = st["unit"] * u
+            return {"op": "set_coord", "scale": float(u), "shift": [0.0, 0.0, 0.0]}
+
+        def mirror():
+            a = rng.randrange(dim)
+            pc = F(rng.randint(-6, 6), 2)
+            st["sv"][a] = -st["sv"][a]
+            st["sh"][a] = 2 * pc - st["sh"][a]
+            pt, nn = [0.0, 0.0, 0.0], [0.0, 0.0, 0.0]
+            pt[a], nn[a] = float(pc), 1.0
+            return {"op": "symmetry", "point": pt, "n": nn}
 
         ax = rng.randrange(dim)
         seq = []
@@ -313,12 +342,22 @@ def gen_sequences(ctx, first_id):
         elif tpl == "replace-mesh":
             other = rng.choice([m for m in (m2 if dim == 2 else m3) if m["elemType"] != mesh["elemType"]])
             seq = [load("surf", face(ax), "poly"), move(), {"op": "check"}, {"op": "set_mesh", "mesh": other}]
-            st = {"s": F(1), "sh": [F(0)] * 3, "ext": [other["L"], other["H"], other.get("T", 0)]}
+            st = {"sv": [F(1)] * 3, "sh": [F(0)] * 3, "ext": [other["L"], other["H"], other.get("T", 0)], "unit": F(1)}
             seq += [load("surf", face(ax), "poly", other), load("volume", everything(), "poly", other), {"op": "check", "fresh": True}]
             seq += [move(), {"op": "bc_init"}, load("surf", face(ax), "poly", other), {"op": "check", "fresh": True}]
         elif tpl == "double-move":
             seq = [load("surf", face(ax), "const"), {"op": "bc_init"}, move(), load("volume", everything(), "poly"), {"op": "bc_init"}, recoord()]
             seq += [load("surf", face(ax), "poly"), load("line" if dim == 2 else "surf", face((ax + 1) % dim), "nodal"), {"op": "check", "fresh": True}]
+        elif tpl == "query-then-load":
+            seq = [{"op": "query"}, load("volume", everything(), "poly"), load("surf", face(ax), "poly"), {"op": "check", "fresh": True}]
+        elif tpl == "move-query-load":
+            seq = [move(), load("surf", face(ax), "poly"), {"op": "query"}, {"op": "bc_init"}, load("volume", everything(), "poly"), {"op": "check", "fresh": True}]
+        elif tpl == "mirror-query-load":
+            seq = [mirror(), {"op": "query"}, load("volume", everything(), "poly"), load("surf", face(ax), "poly"), {"op": "check", "fresh": True}]
+            seq += [{"op": "bc_init"}, mirror(), load("volume", everything(), rng.choice(["poly", "nodal"])), {"op": "check"}]
+        elif tpl.startswith("scaled-twin:"):
+            seq = [rescale(int(tpl.split(":")[1]))] + ([{"op": "query"}] if rng.random() < 0.5 else [])
+            seq += [load("volume", everything(), "poly"), load("surf", face(ax), "poly"), load("surf", face((ax + 1) % dim), "nodal"), {"op": "check", "fresh": True}]
         out.append({"id": first_id + len(out), "mesh": mesh, "simu": simu, "thickness": rng.choice([0.5, 2.0]) if dim == 2 else 1.0,
                     "template": tpl, "sequence": seq})
     return out
@@ -339,8 +378,12 @@ def judge_sequences(ctx, seqs, results):
             continue
         exps, problems = [], []
         for cp in r["checkpoints"]:
-            center = [F(ctx.rng.randint(-8, 8), 4) for _ in range(3)]
-            Rt, Mt, scale = {}, {}, 1e-12
+            snapc = [[float.fromhex(v) for v in row] for row in r["snapshots"][cp["snapshot"]]]
+            lo3 = [min(row[a] for row in snapc) for a in range(3)]
+            hi3 = [max(row[a] for row in snapc) for a in range(3)]
+            # moments about a random point of (an enlargement of) the current bounding box
+            center = [F(lo3[a]) + (F(hi3[a]) - F(lo3[a])) * F(ctx.rng.randint(-8, 16), 8) for a in range(3)]
+            Rt, Mt, scale, scaleM = {}, {}, 0.0, 0.0
             same_geo = all(a["snapshot"] == cp["snapshot"] and a["mesh"] == cp["mesh"] for a in cp["active"])
             try:
                 for a in cp["active"]:
@@ -350,34 +393,40 @@ def judge_sequences(ctx, seqs, results):
                     if not a["nodes"]:
                         continue
                     ex = expected_for(cl, rl, center)
-                    cmax = max([abs(float(cc)) for v in op["values"] for cc in poly_of(v).values()] + [1.0])
-                    big = max([abs(float.fromhex(v)) for row in rl["coords"] for v in row] + [1.0])
-                    scale = max(scale, float(ex["measure"]) * float(ex.get("tfac", 1)) * cmax * 8.0 * big ** 3)
+                    # natural magnitude of this load: (thickness) * measure * max |density| over the loaded nodes, no absolute floor
+                    lc = [[float.fromhex(v) for v in row] for row in rl["coords"]]
+                    ln = sorted(set(n for g in rl["groups"] for e in ex["loaded"].get(g["type"], []) for n in g["connect"][e]))
+                    fb = max(sum(abs(float(cc)) * abs(lc[n][0]) ** e3[0] * abs(lc[n][1]) ** e3[1] * abs(lc[n][2]) ** e3[2] for e3, cc in poly_of(v).items())
+                             for v in op["values"] for n in ln) if ln else 0.0
+                    sR = float(ex["measure"]) * float(ex.get("tfac", 1)) * fb
+                    lever = max(abs(lc[n][a] - float(center[a])) for n in ln for a in range(3)) if ln else 0.0
+                    scale += sR
+                    scaleM += sR * lever
                     for u in op["unknowns"]:
                         Rt[u] = Rt.get(u, F(0)) + ex["R"][u]
                         Mt[u] = [x + y for x, y in zip(Mt.get(u, [F(0)] * 3), ex["M"][u])]
             except ValueError:
-                exps.append({"R": {}, "M": None, "center": [0, 0, 0], "scale": 1.0})
+                exps.append({"R": {}, "M": None, "center": [0, 0, 0], "scale": 1.0, "scaleM": 1.0})
                 continue
             nchk += 1
             cf = [float(x) for x in center]
             e = {"R": {u: float(v) for u, v in Rt.items()}, "M": ({u: [float(x) for x in m] for u, m in Mt.items()} if same_geo else None),
-                 "center": cf, "scale": scale}
+                 "center": cf, "scale": scale, "scaleM": scaleM}
             exps.append(e)
             coordsf = [[float.fromhex(v) for v in row] for row in r["snapshots"][cp["snapshot"]]]
             unk = cp["all_unknowns"]
             for u in Rt:
                 col = [row[unk.index(u)] for row in cp["F"]]
-                if abs(sum(col) - e["R"][u]) > TOL * scale:
+                if abs(sum(col) - e["R"][u]) > TOL_SEQ * scale:
                     problems.append(("resultant", "after op %d, unknown %s: sum of nodal forces %.12g, exact integral on the geometry at application time %.12g" % (cp["op"], u, sum(col), e["R"][u])))
                 if same_geo:
                     Mi = [sum((coordsf[n][a] - cf[a]) * col[n] for n in range(len(col))) for a in range(3)]
-                    if max(abs(Mi[a] - e["M"][u][a]) for a in range(3)) > TOL * scale:
+                    if max(abs(Mi[a] - e["M"][u][a]) for a in range(3)) > TOL_SEQ * scaleM:
                         problems.append(("moment", "after op %d, unknown %s: first moments %s, exact on the current geometry %s" % (cp["op"], u, Mi, e["M"][u])))
             for u in unk:
                 if u not in Rt and any(row[unk.index(u)] != 0 for row in cp["F"]):
                     problems.append(("other-dof", "after op %d: forces on dof %s which no active load addresses" % (cp["op"], u)))
-            if "fresh_max_diff" in cp and cp["fresh_max_diff"] > TOL * max(cp["fresh_scale"], scale):
+            if "fresh_max_diff" in cp and cp["fresh_max_diff"] > TOL_SEQ * max(cp["fresh_scale"], scale):
                 problems.append(("fresh-simulation", "after op %d: the load vector differs from the one of a fresh simulation on the moved mesh by %.3g" % (cp["op"], cp["fresh_max_diff"])))
         ctx.note_case("%s:%s:%s" % (tag, c["mesh"]["elemType"], c["simu"]))
         for kind, msg in problems:
@@ -387,7 +436,7 @@ def judge_sequences(ctx, seqs, results):
             seen.add(key)
             ops = [o["op"] + (":" + o["load"] if o["op"] == "load" else "") for o in c["sequence"]]
             ctx.violation(key, "%s %s, one simulation object, ops %s: %s" % (c["simu"], c["mesh"]["elemType"], ops, msg),
-                          {"replay_py": REPLAY_SEQ % dict(case=c, expected=exps, tol=TOL), "case": c, "expected": exps})
+                          {"replay_py": REPLAY_SEQ % dict(case=c, expected=exps, tol=TOL_SEQ), "case": c, "expected": exps})
     ctx.cov["sequence_cases"] = len(seqs)
     ctx.cov["sequence_checkpoints_compared"] = nchk
     ctx.obligation("corr:load-sequences", not seen, "%d sequences, %d checkpoints; violation keys %s" % (len(seqs), nchk, sorted(seen)[:5]), n=max(len(seqs), 1))
